@@ -236,6 +236,12 @@ func c19RegRun(x *h.Ctx, c c19RegCase) {
 		x.Class("embedded-credential-mutated")
 	}
 	vcTok := c19x.Compact(c19JWTHeader(c19IssuerKid), vcClaims, c19x.SigValid)
+	if len(vcTok) > 16*1024 {
+		// the presentation plan is applied on top of the embedded credential: two enlargements would compose (the harness
+		// itself then spends seconds building the document)
+		x.Class("skipped:oversize")
+		return
+	}
 	retract := ""
 	if c.Kind == "retract" {
 		retract = existingJTI
